@@ -19,11 +19,35 @@ fn e2s(e: Error) -> String {
     errors_to_string(&e)
 }
 
+thread_local! {
+    /// generated-id prefix of the last successful set_mathml of this session (ids are "M" + 7 chars + "-" + n)
+    static ID_PREFIX: std::cell::RefCell<String> = std::cell::RefCell::new(String::new());
+}
+
+/// "ID-3" -> the real generated id of the current expression
+fn denorm(id: &str) -> String {
+    if let Some(rest) = id.strip_prefix("ID-") {
+        return ID_PREFIX.with(|p| p.borrow().clone()) + rest;
+    }
+    id.to_string()
+}
+
+fn remember_prefix(mathml: &str) {
+    if let Some(i) = mathml.find("id='M") {
+        let start = i + 4;
+        if mathml.len() >= start + 9 && mathml.as_bytes()[start + 8] == b'-' {
+            ID_PREFIX.with(|p| *p.borrow_mut() = mathml[start..start + 9].to_string());
+        }
+    }
+}
+
 pub fn dispatch(op: &[Value]) -> Result<Value, String> {
     let name = s(op, 0);
     match name.as_str() {
         "set_rules_dir" => set_rules_dir(s(op, 1)).map(|_| Value::Null).map_err(e2s),
-        "set_mathml" => set_mathml(s(op, 1)).map(Value::String).map_err(e2s),
+        "set_mathml" => set_mathml(s(op, 1)).map(|m| { remember_prefix(&m); Value::String(m) }).map_err(e2s),
+        "v_set_navigation_node_norm" => set_navigation_node(denorm(&s(op, 1)), n(op, 2)).map(|_| Value::Null).map_err(e2s),
+        "v_get_braille_norm" => get_braille(denorm(&s(op, 1))).map(Value::String).map_err(e2s),
         "get_spoken_text" => get_spoken_text().map(Value::String).map_err(e2s),
         "get_overview_text" => get_overview_text().map(Value::String).map_err(e2s),
         "get_braille" => get_braille(s(op, 1)).map(Value::String).map_err(e2s),
@@ -48,6 +72,10 @@ pub fn dispatch(op: &[Value]) -> Result<Value, String> {
         "v_tts_merge_pauses" => Ok(Value::String(libmathcat::verif::tts::merge_pauses(&s(op, 1), &s(op, 2)))),
         "v_tts_auto_pause" => Ok(Value::String(libmathcat::verif::tts::auto_pause(&s(op, 1), &s(op, 2), &s(op, 3)))),
         "v_prefs_dump" => Ok(json!(libmathcat::verif::prefs::dump().into_iter().map(|(a, b, c, d)| json!([a, b, c, d])).collect::<Vec<_>>())),
+        "v_nav_state" => {
+            let (ps, cs, pm, mode, ov) = libmathcat::verif::navigate::nav_state();
+            Ok(json!({"ps": ps, "cs": cs, "marks": pm, "mode": mode, "overview": ov, "log": libmathcat::verif::navigate::take_log()}))
+        }
         _ => Err(format!("HARNESS: unknown op '{}'", name)),
     }
 }
